@@ -323,6 +323,10 @@ def run(tier):
         r5_order_sensitive(rep)
         r5b_single_entry_enum(rep)
         r3d_same_resolution(rep)
+        from .shared import presized_from_hint
+        R6 = rep.rule('C18/R6', 'the map type behind toml::Map differs in when it allocates (BTreeMap lazily, IndexMap eagerly): no container of the workspace is pre-sized from an access '
+                      'object\'s size_hint(), an untrusted number that only the eager configuration would act on', floor=1)
+        presized_from_hint(rep, R6, Facts('default'))
     except AnalysisIncomplete as e:
         rep.incomplete('C18/analysis', 'rules', str(e))
     except Exception:
